@@ -188,6 +188,18 @@ def check(ctx, prog):
             lp.record(ctx, name, o.st, claims, 'C19.stream', on_cex=cex)
     for w in ('fragmented_frame_accepted', 'error_path', 'too_long_rejected', 'frame_decoded'):
         ctx.note_witness('C19.stream.' + w, w in seen)
+    check_reader_actor(ctx, prog)
+    # the same reader actor on the real build over scripted streams (every run: ties the model of the reader environment to the real AsyncRead path)
+    try:
+        r = replay_reader(None)
+        ctx.translator_validated += 24
+        ctx.extra['reader_actor_native_battery'] = r['detail']
+        if r['replayed']:
+            rec = {'name': 'reader_actor.native_battery', 'group': 'C19.stream.reader_actor', 'solver_s': 0.0, 'status': 'cex'}
+            ctx.obligations.append(rec)
+            ctx.handle_cex(rec['name'], 'C19.stream.reader_actor.native', None, lambda _m: r, rec)
+    except RuntimeError as e:
+        ctx.inconclusive.append('reader actor native battery unavailable: %s' % str(e)[-300:])
 
 
 _replayed = {}
@@ -199,3 +211,103 @@ def replay(want, reads):
     if k not in _replayed:
         _replayed[k] = C19_stream_replay.replay(want, reads)
     return _replayed[k]
+
+
+def check_reader_actor(ctx, prog):
+    """SessionReader::handle(WaitForObject): whatever read_network_message returns, the reader actor itself is not harmed (Ok(()), no unwind); a frame goes to
+    the session exactly once and the reader re-arms; a framing error or EOF closes the stream and stops *this* reader with a reason - nothing else"""
+    cands = [b for n, b in prog.bodies.items() if n.endswith('::handle') and (prog.impl_of.get(n) or {}).get('self_ty') == 'SessionReader']
+    if len(cands) != 1:
+        raise Inconclusive('SessionReader::handle not found (%d candidates)' % len(cands))
+    ctx.encoded(prog, cands[0])
+    seen = set()
+    for result in ('ok', 'eof', 'other', 'no_reader'):
+        I = new_interp(prog)
+
+        @I.model(r'(^|::)ActorRef::<.*>::cast$|(^|::)<impl (\w+::)*ActorRef<.*>>::cast$', 'ActorRef::cast: recorded (succeeds or the target is gone)')
+        def m_cast(I, st, f, args, fr):
+            s2 = st.fork()
+            tgt = models_std.deref_val(I, st, args[0])
+            st.emit('CAST', getattr(tgt, 'ident', None), args[1], 'ok')
+            s2.emit('CAST', getattr(tgt, 'ident', None), args[1], 'refused')
+            return [Outcome(st, 'ret', models_std.ok(UNIT)), Outcome(s2, 'ret', models_std.err(Opaque('MessagingErr')))]
+
+        @I.model(r'(^|::)ActorRef::<.*>::stop$|(^|::)ActorCell::stop$', 'ActorCell::stop: recorded')
+        def m_stop(I, st, f, args, fr):
+            tgt = models_std.deref_val(I, st, args[0])
+            st.emit('STOP', getattr(tgt, 'ident', None), args[1])
+            return I.ret(st, UNIT)
+
+        @I.model(r'^<(\w+::)*ActorRef<.*> as Deref>::deref$', 'Deref of ActorRef: same place')
+        def m_deref(I, st, f, args, fr):
+            return I.ret(st, args[0])
+
+        def m_rnm(I, st, f, args, fr):
+            st.emit('READ_FRAME')
+            if result == 'ok':
+                return I.ret(st, Agg('ReadyFut', (models_std.ok(Opaque('NetworkMessage', ident='the-frame')),)))
+            kind = 'UnexpectedEof' if result == 'eof' else 'InvalidData'
+            return I.ret(st, Agg('ReadyFut', (models_std.err(Opaque('io::Error', ident=('made', kind))),)))
+        I.override.append((re.compile(r'(^|::)read_network_message$'), m_rnm))
+
+        @I.model(r'(^|::)io::Error::kind$|^std::io::Error::kind$', 'io::Error::kind of the reader errors made here')
+        def m_kind(I, st, f, args, fr):
+            e = models_std.deref_val(I, st, args[0])
+            k = e.ident[1] if isinstance(e, Opaque) and isinstance(e.ident, tuple) else None
+            if k is None:
+                raise Unmodelled('kind of %r' % (e,))
+            return I.ret(st, Enum('ErrorKind', k, None, ()))
+        prev = I.hooks.get('poll_other')
+
+        def poll_other(I, st, v, cell, path, cx, fr, prev=prev):
+            if isinstance(v, Agg) and v.ty == 'ReadyFut':
+                return [Outcome(st, 'ret', models_std.ready(v.fields[0]))]
+            return prev(I, st, v, cell, path, cx, fr) if prev else None
+        I.hooks['poll_other'] = poll_other
+        st = State()
+        stream = cl.variant(prog, 'ActorReadHalf', 'External', (BoxV(st.alloc(Opaque('reader')), 'Box'),))
+        state = cl.record(prog, 'SessionReaderState', reader=models_std.NONE if result == 'no_reader' else models_std.some(stream))
+        sc = st.alloc(state)
+        me = cl.record(prog, 'SessionReader', session=Opaque('ActorRef', ident='the-session'), max_inbound_frame_size=I.fresh_int('max_frame', 'u64', st))
+        mc = st.alloc(me)
+        msg = cl.variant(prog, 'SessionReaderMessage', 'WaitForObject', ())
+        outs0 = I.run_body(st, cands[0], [Ref(mc, ()), Opaque('ActorRef', ident='myself'), msg, Ref(sc, (), True)])
+        if len(outs0) != 1 or outs0[0].kind != 'ret' or not isinstance(outs0[0].val, Coro):
+            raise Inconclusive('SessionReader::handle did not return a coroutine')
+        st = outs0[0].st
+        cc = st.alloc(outs0[0].val)
+        done = drive(I, st, cc, 3)
+        ctx.absorb(I)
+        ctx.paths += len(done)
+        for k, o in enumerate(done):
+            name = 'reader_actor.%s.path%d' % (result, k)
+            tr = o.st.trace
+            casts = [e for e in tr if e[0] == 'CAST']
+            stops = [e for e in tr if e[0] == 'STOP']
+            to_session = [e for e in casts if e[1] == 'the-session']
+            rearm = [e for e in casts if e[1] == 'myself']
+            rd = o.st.cells[sc].fields[prog.crate.struct('SessionReaderState')['fields'].index('reader')]
+            reader_kept = isinstance(rd, Enum) and rd.variant == 'Some'
+            res = o.val.fields[0] if o.kind == 'ret' and isinstance(o.val, Enum) and o.val.fields else None
+            claims = {'reader_actor_is_not_harmed': o.kind == 'ret' and isinstance(res, Enum) and res.variant == 'Ok'}
+            if result == 'ok':
+                fwd = [e for e in to_session if isinstance(e[2], Enum) and e[2].variant == 'ObjectAvailable' and getattr(e[2].fields[0], 'ident', None) == 'the-frame']
+                claims['frame_goes_to_the_session_exactly_once'] = len(to_session) == 1 and len(fwd) == 1
+                claims['reader_rearms_and_stays'] = len(rearm) == 1 and not stops and reader_kept
+                seen.add('frame')
+            else:
+                want_reason = {'eof': 'channel_closed', 'other': 'frame_read_error', 'no_reader': 'channel_closed'}[result]
+                reason = stops[0][2] if stops else None
+                rs = reason.fields[0].s if isinstance(reason, Enum) and reason.variant == 'Some' and isinstance(reason.fields[0], Str) else None
+                claims['framing_error_stops_this_reader_only'] = len(stops) == 1 and stops[0][1] == 'myself' and not to_session and not rearm
+                claims['stream_is_closed'] = not reader_kept
+                claims['stop_reason_tells_eof_from_a_bad_frame'] = rs == want_reason
+                seen.add(result)
+            lp.record(ctx, name, o.st, claims, 'C19.stream.reader_actor', on_cex=lambda m, result=result: replay_reader(result))
+    for w in ('frame', 'eof', 'other', 'no_reader'):
+        ctx.note_witness('C19.stream.reader_actor.' + w, w in seen)
+
+
+def replay_reader(result):
+    import C19_stream_replay
+    return C19_stream_replay.replay_reader(result)
